@@ -134,7 +134,7 @@ def run(chk):
     for (d, style, pos), per, src in zip(cases, results, srcs):
         for lang in common.LANGS:
             r = per[lang]
-            if r["status"] in ("panic", "abort"):
+            if r["status"] in ("panic", "abort", "hang"):
                 continue
             if r["status"] == "error":
                 raise ToolError(f"doc case rejected: {r['errors']}\n{src}")
